@@ -592,10 +592,24 @@ def tw_serializer_values(a: str, b: int, has_c: bool, n: int) -> bool:
 
 def ob_serializer_list_cycles(kind: int, name: str) -> bool:
     """
-    pre: 0 <= kind <= 2 and len(name) <= 1
+    pre: 0 <= kind <= 5 and len(name) <= 1
     post: _
     """
-    if kind == 0:  # a list that contains itself
+    if kind == 3:  # a dict that contains itself
+        d = {"name": name}
+        d["self"] = d
+        payload = d
+    elif kind == 4:  # parent / child dicts pointing at each other, inside a list
+        parent, child = {"name": name}, {"name": "c"}
+        parent["child"] = child
+        child["parent"] = parent
+        payload = [parent, child]
+    elif kind == 5:  # a dict reaching itself through a dataclass field
+        d = {"name": name}
+        d["holder"] = Nested(inner=Mapped(first_name=name, class_=1), m={})
+        d["again"] = d
+        payload = d
+    elif kind == 0:  # a list that contains itself
         lst = [name]
         lst.append(lst)
         payload = lst
